@@ -118,6 +118,7 @@ func verifC06AddRemote() {
 	before := w.snap()
 	nPairs := len(a.checklist)
 	e2 := a.AddRemoteCandidate(cand)
+	verifSettle()
 	verifAssert(e2 == nil, "AddRemoteCandidate-ok")
 	after := w.snap()
 	w.invBook("post", filter)
